@@ -4,6 +4,7 @@ import (
 	"bytes"
 	"encoding/binary"
 	"errors"
+	"math"
 	"time"
 
 	ps "github.com/prometheus/client_golang/prometheus"
@@ -32,6 +33,7 @@ var errInvalidAggregate = errors.New("invalid aggregate")
 var errInvalidWeightNum = errors.New("invalid weight number")
 var errInvalidSrcKeyNum = errors.New("invalid src key number")
 var errScoreMiss = errors.New("missing score for zset")
+var errScoreNaN = errors.New("resulting score is not a number (NaN)")
 
 const (
 	zsetKeySep   byte = ':'
@@ -299,6 +301,11 @@ func (db *RockDB) ZAdd(ts int64, key []byte, args ...common.ScorePair) (int64, e
 	if len(args) > MAX_BATCH_NUM {
 		return 0, errTooMuchBatchSize
 	}
+	for i := 0; i < len(args); i++ {
+		if math.IsNaN(args[i].Score) {
+			return 0, errScoreNaN
+		}
+	}
 	args = uniqueMembersKeepLast(args)
 	keyInfo, err := db.prepareCollKeyForWrite(ts, ZSetType, key, nil)
 	if err != nil {
@@ -532,6 +539,10 @@ func (db *RockDB) ZIncrBy(ts int64, key []byte, delta float64, member []byte) (f
 	}
 
 	score = oldScore + delta
+	if math.IsNaN(score) {
+		// NaN delta, or +inf plus -inf: a score that cannot be ordered must not be stored
+		return 0, errScoreNaN
+	}
 
 	if v != nil {
 		// so as to update score, we must delete the old one. This must come before the
